@@ -448,7 +448,9 @@ fn gen_level_text(rng: &mut Rng) -> String {
         " (severity number 13; mapped from the upstream collector's numbering, see the operations handbook)",
     ];
     const PADS: [&str; 8] = ["", "", "", " ", "\t", "\u{a0}", "\u{2003}", "\n "];
-    match rng.below(10) {
+    match rng.below(12) {
+        // texts that also read as a number (`"inf".parse::<f64>()` is infinity): a level all the same
+        10 => rng.pick(&["inf", "INF", "Inf", "iNf", "nan", "NaN", "infinity", "1e1", "e", "E", "1", "0", "-0", "+inf", "-inf", "in", "inf "]).to_string(),
         0 => {
             // arbitrary short junk
             let n = rng.usize(5);
@@ -628,7 +630,7 @@ fn gen_min(rng: &mut Rng, _tier: Tier, n: usize) -> Vec<String> {
 fn gen_parse(rng: &mut Rng, _tier: Tier, n: usize) -> Vec<String> {
     let mut out = Vec::new();
     // every level's own Display output and common spellings first
-    for w in ["debug", "info", "warn", "error", "INFO", "Information", "WRN", "DBG", "", " ", "i", "informationx", "info13", "INFO(4)"] {
+    for w in ["debug", "info", "warn", "error", "INFO", "Information", "WRN", "DBG", "", " ", "i", "informationx", "info13", "INFO(4)", "inf", "INF", "Inf", "nan", "infinity", "1e1", "e", "E", "d", "w", "1", "0"] {
         out.push(Sexp::tagged("lvl", vec![Sexp::str(w)]).to_string());
     }
     while out.len() < n {
